@@ -53,6 +53,13 @@ def nonempty_frame_rules(F, ok, rep, P):
                             cb = F.body(cl)
                             if cb and any(re.search(r"<impl \[T\]>::chunks_exact(_mut)?$", callee_name(x)) for _, x in cb.calls()):
                                 why = "chunks of chunks_exact per channel (block size > 0)"
+            if why is None and b.kind == "Closure" and any(a >= 2 for a in backward_slice(b, t["a"][1])["args"]):
+                # the block is the closure's own argument: the item of the iterator the closure was handed to
+                parent = F.body(b.path.rsplit("::{closure#", 1)[0])
+                host = [h for _, h in (parent.calls() if parent is not None else ()) if b.path in [getattr(F.body(x), "path", None) for x in (h.get("cls") or ())]]
+                if len(host) == 1 and re.search(r"Iterator::(try_fold|try_for_each|for_each|fold|map)$", callee_name(host[0])) and \
+                        any(re.search(r"<impl \[T\]>::chunks_exact(_mut)?$", callee_name(c)) for c in backward_slice(parent, host[0]["a"][0])["calls"]):
+                    why = "the item of a chunks_exact iterator (block size > 0)"
             f = ok.path_facts(b).get(bi) or frozenset()
             if why is None and f is not TOP:
                 for x in f:
@@ -315,7 +322,7 @@ def run(ctx, rep):
             rep.check("C15.len", "SampleCountMismatch exactly when written != declared", fact_match(f, "cmp", "^Ne$", "samples_written|NonZero::get", "samples_written|NonZero::get"), fb.loc(s["sp"]), "",
                       "finalize compares the written and declared counts with something other than !=; facts: %s" % fact_str(f))
         rep.floor("C15.len", "SampleCountMismatch sites in finalize_inner", len(sites), 1)
-        st = [1 for bl in fb.blocks for s in bl["s"] if s["d"]["p"] == ["*"] and s["rv"]["r"] == "use" and "total_samples" in place_fields(root_place(fb, {"l": s["d"]["l"], "p": []}))]
+        st = [1 for bl in fb.blocks for s in bl["s"] if s["d"]["p"] and s["rv"]["r"] in ("use", "agg") and place_fields(root_place(fb, s["d"]) or {"p": []})[-1:] == ["total_samples"]]
         rep.check("C15.len", "an undeclared total is recorded at finalize", len(st) >= 1, loc_of(fb))
 
     # ---- C15.guard -------------------------------------------------------------------------------------------------------
